@@ -971,6 +971,29 @@ var scripts = []func(r *rec, s *session, u *universe){
 		s.rawRecs(r, rawRec{wd: wd, mask: inAttrib}, rawRec{wd: wd, mask: inDeleteSelf}, rawRec{wd: wd, mask: inIgnored})
 		s.opRemove(r, f)
 	},
+	// watches whose paths are string prefixes of one another: removing one leaves the others reporting
+	func(r *rec, s *session, u *universe) {
+		for _, p := range []string{"d0", "d0/x", "dir1", "dir10", "f1"} {
+			s.opAdd(r, p, 0x1f, false)
+		}
+		x, d10 := s.wdFor("d0/x"), s.wdFor("dir10")
+		s.opRemove(r, "dir1")
+		s.opRemove(r, "d0")
+		s.rawRecs(r, rawRec{wd: x, mask: inModify}, rawRec{wd: d10, mask: inCreate, name: kernelPad("n")}, rawRec{wd: d10, mask: inModify, name: kernelPad("n")})
+		s.opWatchList(r)
+	},
+	// a watched entry of a watched directory is renamed: its own watch ends with the move, and what is
+	// still queued for it behind the move is reported for nobody
+	func(r *rec, s *session, u *universe) {
+		s.opAdd(r, "d1", 0x1f, false)
+		s.opAdd(r, "d1/z", 0x1f, false)
+		d, z := s.wdFor("d1"), s.wdFor("d1/z")
+		os.Rename(filepath.Join(u.root, "d1/z"), filepath.Join(u.root, "d1/zz"))
+		s.rawRecs(r, rawRec{wd: d, mask: inMovedFrom, cookie: 77, name: kernelPad("z")}, rawRec{wd: d, mask: inMovedTo, cookie: 77, name: kernelPad("zz")},
+			rawRec{wd: z, mask: inMoveSelf}, rawRec{wd: z, mask: inModify}, rawRec{wd: z, mask: inIgnored})
+		s.opWatchList(r)
+		s.rawRecs(r, rawRec{wd: d, mask: inModify, name: kernelPad("zz")})
+	},
 	// rename pair, unmatched move-outs, > 10 moves, zero cookie
 	func(r *rec, s *session, u *universe) {
 		s.opAdd(r, "d0", 0x1f, false)
